@@ -242,14 +242,40 @@ type crashImage struct {
 	k, j int   // k whole calls applied, then j bytes of call k (a write); j = 0: none
 	pos  int64 // where that write starts
 	buf  []byte
+	real bool // j > 0, yet the cut falls between two Write calls the library really issued (one logical write sent in pieces)
 }
 
-func crashImages(b0 []byte, evs []ioEv) []crashImage {
-	evs = mergeWrites(evs)
+func crashImages(b0 []byte, raw []ioEv) []crashImage {
+	evs := mergeWrites(raw)
+	// where, inside each merged write, the library's own Write calls ended (a table or an object
+	// sent in several pieces): those cuts fall *between calls*
+	pieces := make([][]int, len(evs))
+	{
+		k := -1
+		lastWrite := false
+		for _, e := range raw {
+			if e.Kind == "write" && len(e.P) == 0 {
+				continue
+			}
+			if e.Kind == "write" && lastWrite {
+				acc := 0
+				if n := len(pieces[k]); n > 0 {
+					acc = pieces[k][n-1]
+				}
+				pieces[k] = append(pieces[k], acc+len(e.P))
+				continue
+			}
+			k++
+			lastWrite = e.Kind == "write"
+			if lastWrite && k < len(pieces) {
+				pieces[k] = []int{len(e.P)}
+			}
+		}
+	}
 	var out []crashImage
 	s := &simStore{buf: append([]byte(nil), b0...)}
 	for k := 0; k <= len(evs); k++ {
-		out = append(out, crashImage{k, 0, s.pos, append([]byte(nil), s.buf...)})
+		out = append(out, crashImage{k: k, pos: s.pos, buf: append([]byte(nil), s.buf...)})
 		if k == len(evs) {
 			break
 		}
@@ -259,10 +285,25 @@ func crashImages(b0 []byte, evs []ioEv) []crashImage {
 			if s.pos < int64(len(s.buf)) {
 				existing = s.buf[s.pos:]
 			}
-			for _, j := range tearPoints(e.P, existing) {
+			realCut := map[int]bool{}
+			pts := tearPoints(e.P, existing)
+			if k < len(pieces) && len(pieces[k]) > 1 && len(pieces[k]) <= 64 {
+				for _, j := range pieces[k][:len(pieces[k])-1] {
+					if j >= 1 && j <= len(e.P)-1 {
+						realCut[j] = true
+						pts = append(pts, j)
+					}
+				}
+			}
+			done := map[int]bool{}
+			for _, j := range pts {
+				if done[j] {
+					continue
+				}
+				done[j] = true
 				t := &simStore{buf: append([]byte(nil), s.buf...), pos: s.pos}
 				t.apply(ioEv{Kind: "write", P: e.P[:j]})
-				out = append(out, crashImage{k, j, s.pos, t.buf})
+				out = append(out, crashImage{k: k, j: j, pos: s.pos, buf: t.buf, real: realCut[j]})
 			}
 		}
 		s.apply(e)
@@ -381,7 +422,7 @@ func (e *Env) crashOracle(op *Op, obs []string, b0 []byte, pre map[uint32]string
 		if ci.j > 0 {
 			e.stat("crash:torn-images", 1)
 		}
-		if why := crashCheck(ci.buf, pre, post, false, ci.j == 0, skip); why != "" {
+		if why := crashCheck(ci.buf, pre, post, false, ci.j == 0 || ci.real, skip); why != "" {
 			if strings.HasPrefix(why, "the file no longer loads") && tornInNegativeLeftover(b0, ci) {
 				// D11 (known finding): the slot being filled held, not in use, a leftover descriptor
 				// with a negative offset or size, and the table write is torn inside that slot
